@@ -246,14 +246,35 @@ func c13Random(c *Case) {
 		c.Inconclusive("generator-discipline")
 		return
 	}
-	canon, _ := rd.Layout(nil)
 	files := []InFile{{Name: "in.json", Data: doc}}
+	if rng.IntN(4) == 0 {
+		// the commas between object members and between match cases are optional: leave some out (this is another
+		// token sequence, used only when it parses; its layouts must agree with each other like any other program's)
+		var toks []Tok
+		dropped := 0
+		for _, t := range rd.Toks {
+			if t.Opt && rng.IntN(2) == 0 {
+				dropped++
+				continue
+			}
+			toks = append(toks, t)
+		}
+		if dropped > 0 {
+			// whether this sequence is a program at all is for the parser to say - but it must say the same for every layout
+			rd.Toks = toks
+			c.Count("programs_with_optional_commas_left_out")
+			kind += "+comma-less"
+		}
+	}
+	canon, _ := rd.Layout(nil)
 	ref := RunLib(canon, files, nil, RunOpts{})
 	if ref.Class == "budget" {
 		c.Inconclusive("budget")
 		return
 	}
-	if ref.Class == "syntax" || ref.Class == "panic" {
+	if ref.Class == "syntax" && strings.HasSuffix(kind, "+comma-less") {
+		c.Count("comma-less_sequences_that_are_not_programs")
+	} else if ref.Class == "syntax" || ref.Class == "panic" {
 		c.Violation("generated program does not parse in the canonical layout: "+ref.Msg+" | "+clip(canon, 200), nil, map[string]any{"program": canon})
 		return
 	}
@@ -303,7 +324,7 @@ func c13Cases(tier string) int {
 func init() {
 	register(&Prop{
 		ID: "C13", Level: "exploration",
-		Rule:     "metamorphic: a generated program (structured programs and function programs, as token sequences) is run in the canonical layout (one space between tokens, one statement per line, single quotes) and in 6 (thorough 12) random layouts of the same tokens: between tokens nothing (where a table says they cannot fuse) / spaces / tabs / CR / comment+newline / newlines, except no newline after print/return, after a print-list comma or before ';'; statement-separating newlines replaced by ';' unless the statement ends in '}'; either quote style. stdout and outcome must be identical. Enumerated: every adjacent token pair of a two-program corpus using all operators and keywords written without a space, one gap at a time and all at once; literal slice vs the model: every byte 0x01-0xFF (control bytes, CR, LF included) and 9 sequences of line-end bytes inside a string literal in both quote styles, the three escapes and 10 non-escapes (error only when evaluated), number spellings incl. 30 digits and leading zeros, 126 identifiers built from keywords. Non-trivial = layout differing from canonical in >= 3 gaps incl. a newline, comment or removed space; distinct by text.",
+		Rule:     "metamorphic: a generated program (structured programs and function programs, as token sequences) is run in the canonical layout (one space between tokens, one statement per line, single quotes) and in 6 (thorough 12) random layouts of the same tokens: between tokens nothing (where a table says they cannot fuse) / spaces / tabs / CR / comment+newline / newlines, except no newline after print/return, after a print-list comma or before ';'; statement-separating newlines replaced by ';' unless the statement ends in '}'; either quote style; in a quarter of the programs some of the optional commas (between object members, between match cases) are left out. stdout and outcome must be identical. Enumerated: every adjacent token pair of a two-program corpus using all operators and keywords written without a space, one gap at a time and all at once; literal slice vs the model: every byte 0x01-0xFF (control bytes, CR, LF included) and 9 sequences of line-end bytes inside a string literal in both quote styles, the three escapes and 10 non-escapes (error only when evaluated), number spellings incl. 30 digits and leading zeros, 126 identifiers built from keywords. Non-trivial = layout differing from canonical in >= 3 gaps incl. a newline, comment or removed space; distinct by text.",
 		NumCases: c13Cases,
 		Run: func(c *Case) {
 			switch c.Idx {
